@@ -57,7 +57,7 @@ var sharedTypes = map[string]bool{
 var skipPkgs = []string{"Havoc/pkg/profile/yaotl", "Havoc/pkg/common/certs", "Havoc/verifsim"}
 
 type stats struct {
-	goStmts, syncTypes, chanOps, timeCalls, randImports, netCalls, exits, mapRanges, loops, accesses, rmw, aliases, aliasCalls int
+	goStmts, syncTypes, chanOps, timeCalls, randImports, netCalls, exits, mapRanges, loops, accesses, rmw, aliases, aliasCalls, globals, mapAcc int
 	mapRangeSites                                                                                       []string
 	rangeCalls                                                                                          []string
 }
@@ -142,8 +142,8 @@ func main() {
 		}
 		os.Exit(2)
 	}
-	fmt.Printf("verifinst: go=%d sync=%d chan=%d time=%d rand=%d net=%d exit=%d maprange=%d loops=%d access=%d rmw=%d aliases=%d aliascalls=%d\n",
-		st.goStmts, st.syncTypes, st.chanOps, st.timeCalls, st.randImports, st.netCalls, st.exits, st.mapRanges, st.loops, st.accesses, st.rmw, st.aliases, st.aliasCalls)
+	fmt.Printf("verifinst: go=%d sync=%d chan=%d time=%d rand=%d net=%d exit=%d maprange=%d loops=%d access=%d rmw=%d aliases=%d aliascalls=%d globals=%d mapaccess=%d\n",
+		st.goStmts, st.syncTypes, st.chanOps, st.timeCalls, st.randImports, st.netCalls, st.exits, st.mapRanges, st.loops, st.accesses, st.rmw, st.aliases, st.aliasCalls, st.globals, st.mapAcc)
 	for _, s := range st.mapRangeSites {
 		fmt.Println("verifinst: map range at", s)
 	}
@@ -763,6 +763,16 @@ func (in *inst) touchesShared(s ast.Stmt) (read bool) {
 					read = true
 					return false
 				}
+			case *ast.Ident:
+				// R14: a package-level slice, array or map of a Havoc package is shared by every goroutine
+				if v, ok := in.info.Uses[x].(*types.Var); ok && v.Pkg() != nil && v.Parent() == v.Pkg().Scope() && strings.HasPrefix(v.Pkg().Path(), "Havoc/") {
+					switch v.Type().Underlying().(type) {
+					case *types.Slice, *types.Array, *types.Map:
+						st.globals++
+						read = true
+						return false
+					}
+				}
 			case *ast.CallExpr:
 				// R13: a method call through an alias of a shared reference
 				if sel, ok := x.Fun.(*ast.SelectorExpr); ok {
@@ -823,6 +833,19 @@ func (in *inst) stmtAccess(c *astutil.Cursor, s ast.Stmt) {
 	if !in.touchesShared(s) {
 		return
 	}
+	// R15: reads and writes of a map that lives in a shared struct
+	if ms := in.mapAccesses(s); len(ms) > 0 {
+		for _, m := range ms {
+			st.mapAcc++
+			w := "false"
+			if m.write {
+				w = "true"
+			}
+			site := &ast.BasicLit{Kind: token.STRING, Value: strconv.Quote(in.site(s))}
+			c.InsertBefore(&ast.ExprStmt{X: in.call("MapAccess", site, cloneSel(m.x), ast.NewIdent(w))})
+		}
+		return
+	}
 	mode := byte('r')
 	if inc, ok := s.(*ast.IncDecStmt); ok && in.lhsShared(inc.X) {
 		mode = 'w'
@@ -831,6 +854,75 @@ func (in *inst) stmtAccess(c *astutil.Cursor, s ast.Stmt) {
 }
 
 // lhsShared: the assignment target is (an element of) a shared field.
+type mapAcc struct {
+	x     ast.Expr
+	write bool
+}
+
+// mapAccesses lists the shared-struct map fields a statement indexes, deletes from or ranges over.
+func (in *inst) mapAccesses(s ast.Stmt) []mapAcc {
+	var out []mapAcc
+	seen := map[string]bool{}
+	isMapSel := func(e ast.Expr) bool {
+		if !in.sharedSel(e) {
+			return false
+		}
+		t := in.info.TypeOf(e)
+		if t == nil {
+			return false
+		}
+		_, ok := t.Underlying().(*types.Map)
+		return ok && pureChain(e)
+	}
+	add := func(e ast.Expr, w bool) {
+		k := in.exprString(e)
+		if seen[k] {
+			if w {
+				for i := range out {
+					if in.exprString(out[i].x) == k {
+						out[i].write = true
+					}
+				}
+			}
+			return
+		}
+		seen[k] = true
+		out = append(out, mapAcc{e, w})
+	}
+	writes := map[ast.Expr]bool{}
+	if as, ok := s.(*ast.AssignStmt); ok {
+		for _, l := range as.Lhs {
+			if ix, ok := l.(*ast.IndexExpr); ok {
+				writes[ix] = true
+			}
+		}
+	}
+	for _, h := range headerExprs(s) {
+		if h == nil || isNilNode(h) {
+			continue
+		}
+		ast.Inspect(h, func(n ast.Node) bool {
+			switch x := n.(type) {
+			case *ast.FuncLit:
+				return false
+			case *ast.IndexExpr:
+				if isMapSel(x.X) {
+					add(x.X, writes[x])
+				}
+			case *ast.CallExpr:
+				if id, ok := x.Fun.(*ast.Ident); ok && id.Name == "delete" && len(x.Args) == 2 && isMapSel(x.Args[0]) {
+					add(x.Args[0], true)
+				}
+			}
+			return true
+		})
+	}
+	if r, ok := s.(*ast.RangeStmt); ok && isMapSel(r.X) {
+		add(r.X, false)
+	}
+	return out
+}
+
 func (in *inst) lhsShared(e ast.Expr) bool {
 	for {
 		switch x := e.(type) {
